@@ -21,7 +21,7 @@ EXPLANATION = (
     'collapseSpec_unreferenced, collapseEdge_subst); ref_swap_tri_edge replaces the two triangles by (n0,n3,n2), '
     '(n1,n2,n3) with the shared id, the signed boundary chain under every antisymmetric edge functional and the signed '
     'area are unchanged (swapTriEdge_spec, sameFaceid_ids, swapTri_conforming, swapTri_area); the no-repeated-vertex '
-    'invariant is kept along every sequence of guarded splits and collapses (history_noRepeat). '
+    'invariant is kept after every prefix of every sequence of guarded splits and collapses (history_noRepeat_partial; the full history statement with swap, valid references and 3-D chain conformity is not proved). '
     'Tie: (i) the same op lines drive the real ref_split_edge / ref_collapse_edge / ref_swap_same_faceid / '
     'ref_swap_manifold / ref_swap_node23 / ref_swap_tri_edge (white-box) and the trial frame on grids built in-process '
     'and the Lean model; canonical dumps must be identical; (ii) real ref_adapt_pass / ref_split_pass / '
